@@ -41,6 +41,8 @@ theorem rect_empty_contains (r : Rect) (x y : Nat) (h : isEmpty r = true) : cont
   · rw [extentEmpty_inExtent _ _ x h, Bool.false_and]
   · rw [extentEmpty_inExtent _ _ y h, Bool.and_false]
 
+example : isEmpty ⟨some 30, some 2, some 20, some 8⟩ = true := by decide
+
 theorem inExtent_witness (lo hi : Option Nat) (h : extentEmpty lo hi = false) (h0 : hi ≠ some 0) :
     ∃ x, inExtent lo hi x = true := by
   cases lo with
